@@ -74,8 +74,8 @@ example : (run exCfg exSched).sh.mlog = [8, 4, 7] := by decide
 set_option maxRecDepth 8000 in
 example : (run exCfg2 exSched2).sh.mlog = [8, 7, 7] := by decide
 set_option maxRecDepth 8000 in
-example : (match (run exCfg2 (exSched2.take 36)).thr[2]? with | some (.main .sDoneZ _) => true | _ => false) = true ∧
-    (run exCfg2 (exSched2.take 36)).sh.complete = false := by decide
+example : (match (run exCfg2 (exSched2.take 36)).thr[2]? with | some (.main (.sDoneZ 1) _) => true | _ => false) = true ∧
+    (run exCfg2 (exSched2.take 36)).sh.complete = 0 ∧ (run exCfg2 exSched2).sh.complete = 1 := by decide
 example : Returned (run exCfg exSched) := ⟨8, by decide, Or.inr (Or.inr (Or.inl rfl))⟩
 example : (run exCfg exSched).sh.result 0 = .accepted ∧ (run exCfg exSched).sh.accCnt 0 = 1 ∧
     (run exCfg exSched).sh.startCnt 0 = 1 ∧ (run exCfg exSched).sh.doneCnt 0 = 1 := by decide
@@ -202,7 +202,7 @@ theorem P5_exit_decision_with_empty_queue (cfg : Cfg) (sh : Shared) (n t : Nat) 
   | pick r hth => cases hth
   | quiesce r hth => cases hth
   | joined w0 r hth => rcases hth with e | e <;> cases e
-  | setShut r hth => cases hth
+  | setShut r r' hth => cases hth
   | restart hth => simp [restartTh] at hth
 
 /-- non-vacuity: a worker at the top of its loop, pool shut down, queue empty: the step takes it into the exit path -/
@@ -257,10 +257,34 @@ theorem one_shutdown_owner (cfg : Cfg) (hc : CfgOk cfg) (sched : List Choice) (t
     (ho : ownsPc pc = true) (ho' : ownsPc pc' = true) : t = t' :=
   (allInv_run cfg hc.joined hc.norestart sched).c.oneOwner t t' pc pc' r r' h h' ho ho'
 
-/-- `_shutdownComplete` is set only after a join loop has completed -/
+/-- `_shutdownCompleteEpoch` becomes non-zero only after a join loop has completed -/
 theorem complete_implies_quiesced (cfg : Cfg) (hc : CfgOk cfg) (sched : List Choice)
-    (h : (run cfg sched).sh.complete = true) : (run cfg sched).sh.quiesced = true :=
+    (h : 0 < (run cfg sched).sh.complete) : (run cfg sched).sh.quiesced = true :=
   (allInv_run cfg hc.joined hc.norestart sched).c.gok.cq h
+
+/-- **FC09d (1): a caller on the "already shut down" path waits for a shutdown that has begun.**  The number it read under
+`_mutex` is positive, and `_shutdown` is still set while it waits (no restart). -/
+theorem poller_epoch_positive (cfg : Cfg) (hc : CfgOk cfg) (sched : List Choice) (t : Nat) (pc : MPc) (r : MRegs) (e : Nat)
+    (h : (run cfg sched).thr[t]? = some (.main pc r)) (hp : pollEp pc = some e) : 0 < e ∧ (run cfg sched).sh.shutdown = true :=
+  ((allInv_run cfg hc.joined hc.norestart sched).c.cok t pc r h).ep e hp
+
+/-- **FC09d (2): `reset()` + `start()` never lower `_shutdownCompleteEpoch`** (with or without `allowRestart`): every step of
+the restart sequence `rsL … kU` leaves it alone — the completion a waiting `shutdown()` caller polls for cannot be hidden by
+a restart, which is what clearing the boolean latch in `start()` did. -/
+theorem restart_keeps_complete (cfg : Cfg) (sh : Shared) (n t : Nat) (pc : MPc) (r : MRegs) (alt : Nat)
+    (h : restartPc pc = true) : (transM cfg sh n t pc r alt).1.complete = sh.complete := by
+  cases pc <;> simp [restartPc] at h <;> simp only [transM] <;> (repeat' split) <;> rfl
+
+/-- **FC09d (3): once its shutdown number is completed the waiting caller returns at its next step**, whatever happened
+in between (in particular a restart that cleared `_shutdown`): the step logs 7 and leaves the polling loop. -/
+theorem poller_returns_when_completed (cfg : Cfg) (sh : Shared) (n t : Nat) (r : MRegs) (alt : Nat) (e : Nat)
+    (h : e ≤ sh.complete) :
+    7 ∈ (transM cfg sh n t (.sDoneZ e) r alt).1.mlog ∧ (transM cfg sh n t (.sDoneZ e) r alt).2.1.1 = .mYield := by
+  simp only [transM, h, if_true, shutdownReturn]
+  split <;> simp
+
+/-- non-vacuity: a waiting caller with number 1, the pool restarted meanwhile (`shutdown = false`), completed number 1 -/
+example : 7 ∈ (transM exCfg { shutdown := false, complete := 1, epoch := 1 } 3 2 (.sDoneZ 1) {} 0).1.mlog := by decide
 
 /-- **P4 (refusal reasons).** The outcome of a submission is decided only by a step of its own enqueue call, and:
 "draining" only if `_accepting` is false at the unlocked check; "shutting down" only if `_shutdown` is set, "queue full"
@@ -281,6 +305,23 @@ theorem P4_refusal_reasons (cfg : Cfg) (sh : Shared) (n t : Nat) (th : Thread) (
 /-- non-vacuity: a submitter's call while the pool is draining changes the outcome of submission 0 (to "draining") -/
 example : (trans exCfg { accepting := false } 2 1 (.sub (.run (.yield_ [⟨.enq, 0⟩]))) 0).1.result 0 = .refDraining ∧
     ({ accepting := false } : Shared).result 0 = .pending := by decide
+
+/-- **FC09e (thread creation fails after the push).** Let `cid` be the task just pushed (`tasks ++ [cid]`, `cid` not queued
+before) when `std::thread` throws.  If the call is then REFUSED, the queue is exactly what it was before the push and `cid` is
+not in it (a refused task can never be popped, hence never runs); if the call is ACCEPTED, `cid` is queued and at least one
+worker is registered in `_threads` (by P5b/`worker_registered` such a worker looks at the queue again before it can leave). -/
+theorem spawn_failure_refused_or_has_worker (sh : Shared) (cid : Nat) (hn : cid ∉ sh.tasks) :
+    let r := spawnFailed { sh with tasks := sh.tasks ++ [cid] }
+    (r.2 = true → r.1.tasks = sh.tasks ∧ cid ∉ r.1.tasks ∧ sh.threads = []) ∧
+    (r.2 = false → cid ∈ r.1.tasks ∧ r.1.threads ≠ [] ∧ r.1.tasks = sh.tasks ++ [cid]) := by
+  simp only [spawnFailed]
+  by_cases h : sh.threads = []
+  · simp [h, hn]
+  · simp [h]
+
+/-- non-vacuity: both outcomes occur -/
+example : (spawnFailed { tasks := [3] ++ [4] }).2 = true ∧ (spawnFailed { tasks := [3] ++ [4] }).1.tasks = [3] ∧
+    (spawnFailed { tasks := [3] ++ [4], threads := [1] }).2 = false := by decide
 
 /-- **Mutual exclusion** (what makes "one critical section" meaningful): in every reachable state every thread whose
 state says it is inside a critical section of `_mutex` is its owner — so at most one is. -/
@@ -325,7 +366,10 @@ fullness, pushes, decides AND spawns inside the critical section; `unlock`; `not
 def enqueueExpected (ref : String) (tail : List Ev) : List Ev :=
   [("read", "_accepting", ""), (ref, "", ""), ("lock", "_mutex", ""), ("read", "_shutdown", "_mutex"), (ref, "", "_mutex"),
    ("full?", "_tasks", "_mutex"), (ref, "", "_mutex"), ("push", "_tasks", "_mutex"),
-   ("room?:_threads.size()<_maxSize", "_threads", "_mutex"), ("call", "spawnWorkerLocked", "_mutex"),
+   ("room?:_threads.size()<_maxSize", "_threads", "_mutex"), ("try", "", "_mutex"), ("call", "spawnWorkerLocked", "_mutex"),
+   -- fixes/FC09e: a failed thread creation is caught; only when no worker exists the task is taken back and the call refused
+   ("catch:conststd::system_error&", "", "_mutex"), ("none?", "_threads", "_mutex"), ("call", "discardNewestTaskLocked", "_mutex"),
+   (ref, "", "_mutex"),
    ("unlock", "_mutex", "_mutex"), ("notify_one", "_condition", "")] ++ tail
 
 /-- **Conformance 1.** `enqueueImpl`: accepting check outside the lock; shutdown check, full check, push, spawn decision and
@@ -338,7 +382,8 @@ theorem skel_tryEnqueueImpl : unit "tryEnqueueImpl" = enqueueExpected "return" [
 between (the caller holds `_mutex`); `spawnWorker` (constructor) is lock / spawnWorkerLocked / unlock. -/
 theorem skel_spawn :
     unit "spawnWorkerLocked" = [("create", "thread", ""), ("lambda", "worker", ""), ("register", "_threads", "")] ∧
-    unit "spawnWorker" = [("lock", "_mutex", ""), ("call", "spawnWorkerLocked", "_mutex"), ("unlock", "_mutex", "_mutex")] := by
+    unit "spawnWorker" = [("lock", "_mutex", ""), ("call", "spawnWorkerLocked", "_mutex"), ("unlock", "_mutex", "_mutex")] ∧
+    unit "discardNewest" = [("size", "_tasks", ""), ("front", "_tasks", ""), ("pop", "_tasks", ""), ("swap", "_tasks", "")] := by
   decide
 
 /-- what `transW` does (Model/ThreadPool.lean), in textual order of the lambda -/
@@ -357,7 +402,7 @@ def workerExpected : List Ev :=
    ("empty?", "_tasks", "_mutex"), ("front", "_tasks", "_mutex"), ("pop", "_tasks", "_mutex"), ("inc", "_busyThreads", "_mutex"),
    ("unlock", "_mutex", "_mutex"),
    -- run
-   ("inc", "_activeThreads", ""), ("run", "task", ""), ("lock", "_configMutex", ""), ("unlock", "_configMutex", "_configMutex"),
+   ("inc", "_activeThreads", ""), ("try", "", ""), ("run", "task", ""), ("catch:...", "", ""), ("lock", "_configMutex", ""), ("unlock", "_configMutex", "_configMutex"),
    ("destroy", "task", ""), ("dec", "_activeThreads", ""), ("dec", "_busyThreads", "")]
 
 /-- **Conformance 4.** the worker loop: the wait, both exit decisions (with their emptiness checks) and the pop are inside
@@ -373,21 +418,32 @@ sets `_shutdown` under `_mutex`, `notify_all` after the unlock, and stores `_shu
 last operation.  Phase 1 of the destructor sets `_shutdown` the same way; both join loops pick and erase under `_mutex` and
 join outside; phase 4 detaches exactly under the condition `mode == DETACHED` — every other mode joins. -/
 theorem skel_shutdown :
-    (unit "shutdown").take 9 = [("lock", "_mutex", ""), ("read", "_shutdown", "_mutex"),
-      ("unlock", "_mutex", "_mutex"), ("read", "_shutdownComplete", ""), ("sleep:1ms", "", ""), ("return", "", ""),
-      ("write:true", "_shutdown", "_mutex"), ("unlock", "_mutex", "_mutex"), ("notify_all", "_condition", "")] ∧
-    (unit "phase1").take 6 = [("lock", "_mutex", ""), ("read", "_shutdown", "_mutex"), ("return", "", "_mutex"),
-      ("write:true", "_shutdown", "_mutex"), ("unlock", "_mutex", "_mutex"), ("notify_all", "_condition", "")] ∧
-    (unit "shutdown").drop 18 = [("lock", "_mutex", ""), ("read", "_threads", "_mutex"), ("read", "_threads", "_mutex"),
+    unit "shutdown" = [("lock", "_mutex", ""), ("read", "_shutdown", "_mutex"), ("read", "_shutdownEpoch", "_mutex"),
+      ("unlock", "_mutex", "_mutex"), ("read:acquire", "_shutdownCompleteEpoch", ""), ("sleep:1ms", "", ""), ("return", "", ""),
+      ("write:true", "_shutdown", "_mutex"), ("inc", "_shutdownEpoch", "_mutex"), ("unlock", "_mutex", "_mutex"),
+      ("notify_all", "_condition", ""),
+      -- first wait (pollL/pollU/pollZ .shut), grace sleep, re-check (sGrace/sChkL/sChkU), race wait (.race)
+      ("read", "_activeThreads", ""), ("call", "getPendingTaskCount", ""), ("sleep:50ms", "", ""), ("sleep:10ms", "", ""),
+      ("read", "_activeThreads", ""), ("call", "getPendingTaskCount", ""), ("read", "_activeThreads", ""),
+      ("call", "getPendingTaskCount", ""), ("sleep:50ms", "", ""),
+      -- join loop, then the release store of the caller's own number
+      ("lock", "_mutex", ""), ("read", "_threads", "_mutex"), ("read", "_threads", "_mutex"),
       ("erase", "_threads", "_mutex"), ("unlock", "_mutex", "_mutex"), ("join", "thread", ""),
-      ("write:true", "_shutdownComplete", "")] ∧
-    (unit "phase4").drop 2 = [("lock", "_mutex", ""), ("read", "_threads", "_mutex"), ("read", "_threads", "_mutex"),
+      ("write:myEpoch:release", "_shutdownCompleteEpoch", "")] ∧
+    unit "phase1" = [("lock", "_mutex", ""), ("read", "_shutdown", "_mutex"), ("return", "", "_mutex"),
+      ("write:true", "_shutdown", "_mutex"), ("inc", "_shutdownEpoch", "_mutex"), ("unlock", "_mutex", "_mutex"),
+      ("notify_all", "_condition", ""), ("return", "", "")] ∧
+    unit "phase4" = [("lock", "_configMutex", ""), ("unlock", "_configMutex", "_configMutex"),
+      ("lock", "_mutex", ""), ("read", "_threads", "_mutex"), ("read", "_threads", "_mutex"),
       ("erase", "_threads", "_mutex"), ("unlock", "_mutex", "_mutex"), ("cond:mode==ShutdownMode::DETACHED", "", ""),
       ("detach", "thread", ""), ("join", "thread", ""), ("return", "", "")] ∧
-    Gen.TpSkel.dtorPhases = [1, 2, 3, 4, 5] ∧ Gen.TpSkel.workerScaling = true := by decide
+    unit "getPendingTaskCount" = [("lock", "_mutex", ""), ("return", "", "_mutex"), ("size", "_tasks", "_mutex"),
+      ("unlock", "_mutex", "_mutex")] ∧
+    Gen.TpSkel.dtorPhases = [1, 2, 3, 4, 5] ∧ Gen.TpSkel.workerScaling = true ∧
+    Gen.TpSkel.shutdownGraceMs = 10 ∧ Gen.TpSkel.maxQueueDefault = 1024 ∧ Gen.TpSkel.idleTimeoutDefaultS = 30 := by decide
 
 /-- **Conformance 6.** restart (`rsL … kU` of the model): `reset()` empties `_tasks` and clears `_threads` under `_mutex` and
-zeroes the counters; `start()` clears `_shutdown` AND `_shutdownComplete` under `_mutex`, then opens `_accepting`, then
+zeroes the counters; `start()` clears `_shutdown` under `_mutex` and does NOT touch `_shutdownCompleteEpoch` (fixes/FC09d), then opens `_accepting`, then
 runs `workerCount = _workerScaling ? _initialSize : _maxSize` iterations (loop condition `i < workerCount`), each of which
 locks `_mutex` and creates + registers a worker only if `_threads.size() < workerCount` in that critical section (`kL` of
 the model; fixes/FC09c: submitters may already be growing the pool). -/
@@ -397,7 +453,7 @@ theorem skel_restart :
       ("write", "_threadsCreated", ""), ("write", "_threadsStarted", ""), ("write", "_threadsExited", ""),
       ("write", "_waitingThreads", ""), ("return", "", "")] ∧
     unit "start" = [("return", "", ""), ("return", "", ""), ("return", "", ""), ("lock", "_mutex", ""),
-      ("write:false", "_shutdown", "_mutex"), ("write:false", "_shutdownComplete", "_mutex"), ("unlock", "_mutex", "_mutex"),
+      ("write:false", "_shutdown", "_mutex"), ("unlock", "_mutex", "_mutex"),
       ("write:true", "_accepting", ""), ("workerCount:_workerScaling?_initialSize:_maxSize", "", ""),
       ("loop:i<workerCount", "", ""), ("lock", "_mutex", ""), ("room?:_threads.size()<workerCount", "_threads", "_mutex"),
       ("call", "spawnWorkerLocked", "_mutex"), ("unlock", "_mutex", "_mutex"), ("return", "", "")] := by decide
